@@ -162,7 +162,8 @@ def run(ctx):
     spath = ctx.workfile("shapes.json")
     spath.write_text(json.dumps(shapes))
     res = ctx.tlc("TransformState", "MC_TransformState_%s.cfg" % ctx.tier, timeout=3000, heap="6g",
-                  env={"SHAPES_FILE": str(spath)})
+                  env={"SHAPES_FILE": str(spath)}, coverage=True)
+    ctx.require_actions(res, ["TSSetAttr", "TSReset", "TSReadOnly"], "TransformState")
     if res.violated:
         raise Machinery("TransformState.tla violates its contract: %s" % res.violated)
     n = bad = 0
